@@ -30,7 +30,7 @@ RULE = ('Hypothesis histories of storage operations as the Queue issues them (wr
         'set_recipients_delivered, remove; optionally an I/O error (ENOSPC) or a complete load() before the k-th rename / temp-file creation / unlink / chunk write of the next operation) over 1..4 messages with bodies of 1..4 chunks (chunk size 64), tmp_dir separate from or '
         'equal to env_dir; for every history EVERY crash point is taken: a snapshot before each file-system effect (temp-file '
         'creation, each chunk write, rename, unlink) and after the last. Each snapshot is recovered by a fresh DiskStorage and a '
-        'fresh Queue. One case = one (history, crash point). non-trivial = crash inside an operation on one message while another '
+        'fresh Queue whose first attempt of every message fails transiently (backoff 0), so the retry - the first metadata write after the crash - is part of the recovery. One case = one (history, crash point). non-trivial = crash inside an operation on one message while another '
         'acknowledged message is live; distinct = distinct (history, crash index)')
 ASSUMPTIONS = ['POSIX rename/unlink atomicity; process death, not power loss (no fsync model)',
                'operations on one storage are sequential at the crash, except that the start-up scan (load) of a restarted queue may run, to completion, at any file-system effect of another operation (other overlaps are judged by C15)',
